@@ -1,5 +1,6 @@
 /-
-  Proofs/AttrConc — every schedule of lock-protected writers is a serial order (the order of passing the lock).
+  Proofs/AttrConc — every schedule of lock-protected writers is a serial order of their item-level operations (the
+  order of passing the lock), and each writer's operations appear in it in program order.
 -/
 import DeepModel.Model.AttrConc
 open Attr Extracted.Attributes Attributes AttrConc
@@ -17,36 +18,90 @@ theorem run_append (st : BA) (a b : List Op) :
 theorem final_snoc (st : BA) (log : List Op) (w : Op) : final st (log ++ [w]) = (step (final st log) w).1 := by
   simp [final, run_append, run]
 
-/-- invariant of a concurrent run: the shared state is the serial run of the log -/
-def Serial (st0 : BA) (s : Conc) : Prop := s.st = final st0 s.log
+/-- invariant of a concurrent run started in `s0`: the shared state is the serial run of the log, and for every
+    writer "what it committed, followed by what it still has to do" is its program -/
+structure Inv (st0 : BA) (s0 s : Conc) : Prop where
+  serial : s.st = final st0 (s.log.map (·.2))
+  len : s.thrs.length = s0.thrs.length
+  prog : ∀ i t t0, s.thrs[i]? = some t → s0.thrs[i]? = some t0 → s.committed i ++ t.rem = t0.rem
 
-theorem stepThr_serial (ws : List Op) (st0 : BA) (s : Conc) (i : Nat) (h : Serial st0 s) :
-    Serial st0 (Conc.stepThr ws s i) ∧ (∀ w ∈ (Conc.stepThr ws s i).log, w ∈ s.log ∨ w ∈ ws) := by
+theorem filt_same (log : List (Nat × Op)) (i : Nat) (op : Op) :
+    ((log ++ [(i, op)]).filter (fun e => e.1 == i)).map (·.2) = (log.filter (fun e => e.1 == i)).map (·.2) ++ [op] := by
+  simp [List.filter_append]
+
+theorem filt_other (log : List (Nat × Op)) (i j : Nat) (op : Op) (h : i ≠ j) :
+    ((log ++ [(i, op)]).filter (fun e => e.1 == j)).map (·.2) = (log.filter (fun e => e.1 == j)).map (·.2) := by
+  have : (i == j) = false := by simpa using h
+  simp [List.filter_append, this]
+
+theorem stepThr_inv (st0 : BA) (s0 s : Conc) (i : Nat) (h : Inv st0 s0 s) : Inv st0 s0 (Conc.stepThr s i) := by
   unfold Conc.stepThr
   split
-  · split
-    · exact ⟨h, fun w hw => Or.inl hw⟩
-    · exact ⟨h, fun w hw => Or.inl hw⟩
-  · rename_i w _ hw _
-    refine ⟨?_, ?_⟩
-    · simp only [Serial]
-      rw [final_snoc, ← h]
-    · intro x hx
-      simp only [List.mem_append, List.mem_singleton] at hx
-      rcases hx with hx | hx
-      · exact Or.inl hx
-      · subst hx; exact Or.inr (List.mem_of_getElem? hw)
-  · exact ⟨h, fun w hw => Or.inl hw⟩
+  · exact h
+  · rename_i t ht
+    split
+    · exact h
+    · split
+      · exact h
+      · rename_i op rest hrem
+        split
+        · -- outside the lock: only thread i's flags change
+          have key : ∀ (t' : Thr), t'.rem = t.rem →
+              Inv st0 s0 { s with thrs := s.thrs.set i t' } := by
+            intro t' hr
+            refine ⟨h.serial, by simp [h.len], ?_⟩
+            intro j tj t0 hj h0
+            simp only [List.getElem?_set] at hj
+            by_cases hij : i = j
+            · subst hij
+              have hlt : i < s.thrs.length := by
+                rcases List.getElem?_eq_some_iff.mp ht with ⟨hl, _⟩; exact hl
+              simp only [hlt, if_true] at hj
+              cases hj
+              rw [hr]
+              exact h.prog i t t0 ht h0
+            · simp only [hij, if_false] at hj
+              exact h.prog j tj t0 hj h0
+          split
+          · exact key _ rfl
+          · exact key _ rfl
+        · -- inside the lock: the operation is applied and logged
+          refine ⟨?_, by simp [h.len], ?_⟩
+          · simp only [List.map_append, List.map_cons, List.map_nil]
+            rw [final_snoc, ← h.serial]
+          · intro j tj t0 hj h0
+            simp only [List.getElem?_set] at hj
+            by_cases hij : i = j
+            · subst hij
+              have hlt : i < s.thrs.length := by
+                rcases List.getElem?_eq_some_iff.mp ht with ⟨hl, _⟩; exact hl
+              simp only [hlt, if_true] at hj
+              cases hj
+              have hp := h.prog i t t0 ht h0
+              rw [hrem] at hp
+              simp only [Conc.committed] at hp ⊢
+              rw [filt_same, List.append_assoc]
+              exact hp
+            · simp only [hij, if_false] at hj
+              have hp := h.prog j tj t0 hj h0
+              simp only [Conc.committed] at hp ⊢
+              rw [filt_other _ _ _ _ hij]
+              exact hp
 
-theorem run_serial (ws : List Op) (st0 : BA) (sched : List Nat) : ∀ (s : Conc), Serial st0 s →
-    (∀ w ∈ s.log, w ∈ ws) →
-    Serial st0 (Conc.run ws s sched) ∧ (∀ w ∈ (Conc.run ws s sched).log, w ∈ ws) := by
+theorem run_inv (st0 : BA) (s0 : Conc) (sched : List Nat) : ∀ (s : Conc), Inv st0 s0 s →
+    Inv st0 s0 (Conc.run s sched) := by
   induction sched with
-  | nil => intro s h hl; exact ⟨h, hl⟩
+  | nil => intro s h; exact h
   | cons i sched ih =>
-    intro s h hl
-    have ⟨h1, h2⟩ := stepThr_serial ws st0 s i h
+    intro s h
     simp only [Conc.run, List.foldl_cons]
-    exact ih _ h1 (fun w hw => (h2 w hw).elim (hl w) id)
+    exact ih _ (stepThr_inv st0 s0 s i h)
+
+theorem init_inv (st : BA) (ws : List Op) : Inv st (Conc.init st ws) (Conc.init st ws) := by
+  refine ⟨rfl, rfl, ?_⟩
+  intro i t t0 h1 h2
+  rw [h1] at h2
+  cases h2
+  simp [Conc.committed, Conc.init]
 
 end AttrConcProofs
